@@ -366,7 +366,7 @@ def C12(ctx):
     S.c12_r1(soft_if(ctx, d_img, "C12.R9"), f)
     S.c12_r2(soft_if(ctx, d_doc, "C12.R7"), f)
     S.c12_r3(ctx, f)
-    S.c12_r4(soft_if(ctx, d_doc and d_img, "C12.R7/R9"), f)
+    S.c12_r4(ctx, f, image_decided=bool(d_img))
     d_col = S.c12_r8(ctx, f)
     S.c12_r5(soft_if(ctx, d_col, "C12.R8"), f)
     S.c12_r6(soft_if(ctx, d_doc, "C12.R7"), f)
@@ -386,7 +386,7 @@ def C13(ctx):
     d_doc = G.c12_r7(ctx, f)
     d_img = G.c12_r9(ctx, f)
     S.c12_r8(ctx, f)
-    S.c12_r4(soft_if(ctx, d_doc and d_img, "C12.R7/R9"), f)
+    S.c12_r4(ctx, f, image_decided=bool(d_img))
     S.c12_r6(soft_if(ctx, d_doc, "C12.R7"), f)
     return dict(
         level="other",
@@ -443,8 +443,10 @@ def C15(ctx):
     G.c04_r3(ctx, f, rid="C15.R4", only_outside=True)
     G.c01_r5(ctx, f, rid="C15.R5")
     # the module handed to the shape callbacks: decided exactly by the document rule (slot (y, x) is drawn iff module (y, x) is dark)
-    d_doc = G.c12_r7(ctx, ctx.facts("svg"), rid="C15.R7")
-    S.c12_r2(soft_if(ctx, d_doc, "C15.R7"), ctx.facts("svg"))
+    # which module is handed to the shape callback (custom callbacks read its label): the built-in shapes ignore that argument, so
+    # the document rule cannot decide it - C12.R2 stays hard here (it abstains by itself on loops it does not read)
+    G.c12_r7(ctx, ctx.facts("svg"), rid="C15.R7")
+    S.c12_r2(ctx, ctx.facts("svg"))
     witness.rule(ctx, "C15.W1", "callback slot is fn(usize, usize, Module) -> String; ModuleType has the eight documented regions",
                  ["w_c15_callback_type", "w_c15_module_types"])
     return dict(
